@@ -98,6 +98,20 @@ def draw_case(draw, closed=()):
         new = b.add({"op": "extend", "src": cur, "ops": clean})
         if new is not None:
             cur = new
+    if g.boolean(0.25):
+        # an assignment that reads what the previous step made, immediately overwritten by a constant: the builder merges
+        # the two and must end up with the same shape as for the printed (already merged) text
+        sch2 = b.schemas[cur]
+        prev = b.case["nodes"][cur]
+        made = [k for k, _ in prev["ops"]] if prev["op"] == "extend" and not prev.get("partition_by") and not prev.get("order_by") else []
+        srcs = [c for c in (made or sch2.names()) if c in sch2.cols and sch2.cols[c]["type"] in NUM and not sch2.cols[c]["null"]]
+        free = [n for n in ("h", "w", "y", "z", "x") if n not in sch2.cols]
+        if srcs and free:
+            n1 = b.add({"op": "extend", "src": cur, "ops": [[free[0], ["call", "*", [["call", "neg", [["col", g.pick(srcs)]]], ["lit", 1.0]]]]]})
+            if n1 is not None:
+                n2 = b.add({"op": "extend", "src": n1, "ops": [[free[0], ["call", "*", [["lit", 3.0], ["lit", 1.0]]]]]})
+                cur = n2 if n2 is not None else n1
+                feats.append("dead_then_constant")
     case = b.finish(cur)
     case["enrich"] = feats
     return case
